@@ -10,7 +10,7 @@
    other datatype.  The harness validates it against the real DisplayContext on every run. *)
 From Coq Require Import ZArith List Bool Arith Lia.
 From Coq Require String.
-From Verif Require Model.PyMini Model.PrimsRender Gen.SrcRender Proofs.SrcRender Proofs.SrcRenderTop Proofs.SrcRenderCsv Proofs.SrcRenderText Proofs.SrcRenderText2 Model.PrimsRenderPos Proofs.SrcRenderAmount Model.PrimsRenderCost Proofs.SrcRenderCost Gen.SrcRenderSet Model.PrimsRenderSet Proofs.SrcRenderSet.
+From Verif Require Model.PyMini Model.PrimsRender Gen.SrcRender Proofs.SrcRender Proofs.SrcRenderTop Proofs.SrcRenderCsv Proofs.SrcRenderText Proofs.SrcRenderText2 Model.PrimsRenderPos Proofs.SrcRenderAmount Model.PrimsRenderCost Proofs.SrcRenderCost Gen.SrcRenderSet Model.PrimsRenderSet Proofs.SrcRenderSet Gen.SrcRenderInv Model.PrimsRenderInv Proofs.SrcRenderInv.
 Import ListNotations.
 From Verif Require Import Base.Out Base.StableSort Base.PyValue Model.Render Model.RenderCheck Proofs.RenderProofs Proofs.RenderCheckProofs.
 
@@ -742,3 +742,65 @@ Example C16_source_cost_example :
                    (fun r2 => Ok (snd r, snd r2)))) =
   Ok (PInt 24, PV (VStr [55; 32; 69; 85; 32; 44; 32; 34; 108; 111; 116; 34]%Z)).
 Proof. split; [reflexivity|]. split; [repeat constructor|vm_compute; reflexivity]. Qed.
+
+(* InventoryRenderer.format, the expanded layout (bld-render6; Gen/SrcRenderInv.v = the first statement of format,
+   `if self.expand: ...; return strings`; Model/PrimsRenderInv.v; Proofs/SrcRenderInv.v).  The receiver has expand = True and
+   holds under the key True of `self.renderers` a PositionRenderer prepared in state st (what C16_source_position_prepare
+   leaves; calling its format is interpreting the translated PositionRenderer.format); every other field is arbitrary.
+   TRUSTED (primitive "sorted:key=positionsortkey"): sorted(positions, key=self.positionsortkey) = Render.sort_pos. *)
+Import Verif.Gen.SrcRenderInv Verif.Model.PrimsRenderInv Verif.Proofs.SrcRenderInv.
+
+Theorem C16_source_inventory_format_expand : forall (call_ref : nat -> list pv -> pv)
+    (numfmt : list (dec * str) -> dec -> str -> str) (kq : nat) (st : pstate) (mw prep ls cn ds : pv) (rs : list pv)
+    (l : list posn),
+  ddict_get (PBool true) rs = Some (the_renderer numfmt kq st) ->
+  call_method call_ref (prims_inv call_ref numfmt) render_inv_format_expand (inv_env mw prep ls cn ds rs) [enc_inv l] =
+  Ok (inv_env mw prep ls cn ds rs, PList (map enc_s (inv_format numfmt st l))).
+Proof. exact inv_format_expand_src. Qed.
+Print Assumptions C16_source_inventory_format_expand.
+
+(* ... which is the cell Render.st_format gives an Inventory column with expand whose state is st *)
+Theorem C16_source_inventory_format_cell : forall (call_ref : nat -> list pv -> pv)
+    (numfmt : list (dec * str) -> dec -> str -> str) (kq : nat) (o : opts) (st : pstate) (mw prep ls cn ds : pv)
+    (rs : list pv) (l : list posn),
+  ddict_get (PBool true) rs = Some (the_renderer numfmt kq st) ->
+  call_method call_ref (prims_inv call_ref numfmt) render_inv_format_expand (inv_env mw prep ls cn ds rs)
+    [enc_rcell (CInv l)] =
+  Ok (inv_env mw prep ls cn ds rs, enc_out (st_format numfmt o TInventory (SInvX st) (CInv l))).
+Proof. intros call_ref numfmt kq o st mw prep ls cn ds rs l H. exact (inv_format_expand_src call_ref numfmt kq st mw prep ls cn ds rs l H). Qed.
+Print Assumptions C16_source_inventory_format_cell.
+
+Theorem C16_source_renderinv_no_opaque : SrcRenderInv.refs = [].
+Proof. reflexivity. Qed.
+Print Assumptions C16_source_renderinv_no_opaque.
+
+(* InventoryRenderer.update, its FIRST statement (the loop `for pos in value.get_positions(): self.renderers[self.expand or
+   pos.units.currency].update(pos)`; the Counter / self.counts bookkeeping after it is not translated), expand = True.
+   `cur rs` is the PositionRenderer the key True of the dict rs stands for: the stored one or, for a missing key, the
+   defaultdict factory's product fresh_posr = the object C16_source_position_init proves PositionRenderer.__init__ builds.
+   The loop feeds it the positions in order (Render.p_update); after a non-empty inventory the key is present. *)
+Theorem C16_source_inventory_update_loop : forall (call_ref : nat -> list pv -> pv) (quant : dec -> str -> dec)
+    (numfmt : list (dec * str) -> dec -> str -> str) (kq : nat),
+  (forall d c, call_ref kq [PV (VDec d); PV (VStr c)] = PV (VDec (quant d c))) ->
+  forall (st : pstate) (mw prep mw' prep' ls cn ds : pv) (rs : list pv) (l : list posn),
+  cur kq rs = posr kq mw' prep' st ->
+  exists rs', cur kq rs' = posr kq mw' prep' (fold_left (p_update quant) l st) /\
+    (l = [] -> rs' = rs) /\ (l <> [] -> ddict_get (PBool true) rs' = Some (cur kq rs')) /\
+    call_method call_ref (prims_invu call_ref numfmt (fresh_posr kq)) render_inv_update_loop (inv_env mw prep ls cn ds rs)
+      [enc_inv l] = Ok (inv_env mw prep ls cn ds rs', PNone).
+Proof. exact inv_update_loop_src. Qed.
+Print Assumptions C16_source_inventory_update_loop.
+
+(* the whole column, from the empty dict of a new InventoryRenderer: the renderer under True ends in Render.inv_state *)
+Theorem C16_source_inventory_column : forall (call_ref : nat -> list pv -> pv) (quant : dec -> str -> dec)
+    (numfmt : list (dec * str) -> dec -> str -> str) (kq : nat),
+  (forall d c, call_ref kq [PV (VDec d); PV (VStr c)] = PV (VDec (quant d c))) ->
+  forall (invs : list (list posn)) (mw prep ls cn ds : pv),
+  exists rs', cur kq rs' = posr kq (PInt 0) (PBool false) (inv_state quant invs) /\
+    run_updates_p call_ref (prims_invu call_ref numfmt (fresh_posr kq)) render_inv_update_loop
+      (inv_env mw prep ls cn ds []) (map enc_inv invs) = Ok (inv_env mw prep ls cn ds rs').
+Proof.
+  intros call_ref quant numfmt kq Hq invs mw prep ls cn ds.
+  exact (inv_column_src call_ref quant numfmt kq Hq invs p_init mw prep (PInt 0) (PBool false) ls cn ds [] (cur_empty kq)).
+Qed.
+Print Assumptions C16_source_inventory_column.
